@@ -72,7 +72,8 @@ func runSyncer(s *core.Sim, tier string, liveness bool) RunInfo {
 		return info()
 	}
 	var startErr error
-	st, fin := s.Do("syncer-start", 10*time.Minute, func() { startErr = w.Sy.Start(context.Background()) })
+	st, fin := s.Do("syncer-start", 10*time.Minute, func() { startErr = w.StartSyncer(9 * time.Minute) })
+
 	if st.Panic != nil {
 		s.Violate("panic", map[string]string{"op": "Start"}, "Start panicked: %v\n%s", st.Panic, st.Stack)
 		return info()
@@ -223,7 +224,7 @@ func runSyncer(s *core.Sim, tier string, liveness bool) RunInfo {
 	for i := 0; i < nops && !s.Failed(); i++ {
 		ops := []string{"next", "next", "skip", "burst", "head", "clock", "getter-faults", "settle", "settle"}
 		if !liveness {
-			ops = append(ops, "forged", "forged", "wrong-chain", "future", "stale", "duplicate", "forged-far", "head-forged")
+			ops = append(ops, "forged", "forged", "wrong-chain", "future", "stale", "stale-fork", "duplicate", "forged-far", "head-forged")
 		}
 		switch core.Pick(s.Tape, "op", ops) {
 		case "next":
@@ -317,6 +318,23 @@ func runSyncer(s *core.Sim, tier string, liveness bool) RunInfo {
 			// a stale honest header must be refused with an error but may well be stored already
 			d := deliver("stale", w.Ch.At(x), true)
 			pending = append(pending, d)
+		case "stale-fork":
+			// a validly signed header of another branch at a height the Syncer is already past: known
+			// height, refused whatever it links to - also while a sync is moving headers from the
+			// pending set into the store
+			if accepted == 0 {
+				continue // nothing acknowledged yet: no height is known to be behind the Syncer
+			}
+			base := accepted
+			back := uint64(s.Tape.Draw("fork-back", 10))
+			if back >= base {
+				back = base - 1
+			}
+			x := base - back
+			if x < tailH {
+				x = tailH
+			}
+			pending = append(pending, deliver("stale-fork", simhdr.Fork(w.Ch.At(x), uint64(i)), false))
 		case "duplicate":
 			// re-deliver the most recently sent honest head (possibly while it is still
 			// being processed) or the last acknowledged one
@@ -366,7 +384,7 @@ func runSyncer(s *core.Sim, tier string, liveness bool) RunInfo {
 			return info()
 		}
 		var rerr error
-		rt, rfin := s.Do("syncer-restart", 10*time.Minute, func() { rerr = w.Sy.Start(context.Background()) })
+		rt, rfin := s.Do("syncer-restart", 10*time.Minute, func() { rerr = w.StartSyncer(9 * time.Minute) })
 		if rt.Panic != nil || !rfin || rerr != nil {
 			s.Violate("start-error", map[string]string{"after": "stop-mid-flight"}, "restarting the Syncer over the same Store: finished=%v panic=%v err=%v ops=%v", rfin, rt.Panic, rerr, hist)
 			return info()
